@@ -47,7 +47,7 @@ CHECKS.update({
         technique="runtime monitoring: reference-model (multiset oracle) comparison over generated member lists",
     ),
     "C08": dict(
-        level_text="Exploration by runtime monitoring: the blocking acquisition order of every call through a sorting collection is read from the raw-lock log and folded into one precedence relation per universe that must stay antisymmetric (no assumption that the order is by address; a lock given back and re-taken inside a call counts from its last acquisition, so a back-off that re-takes lower locks while holding a higher one is an inversion); owned units must stay contiguous.",
+        level_text="Exploration by runtime monitoring: the blocking acquisition order of every call through a sorting collection is read from the raw-lock log and folded into one precedence relation per universe that must stay antisymmetric (no assumption that the order is by address; a lock given back and re-taken inside a call counts from its last acquisition, so a back-off that re-takes lower locks while holding a higher one is an inversion); owned units must stay contiguous. Includes 3-byte mutexes (a one-byte auditing raw lock) packed into one machine word.",
         design_ref="DESIGN.md §3 C08",
         level_note="Trusted: raw-lock event log order. Holds for the universes/arrangements produced.",
         technique="runtime monitoring: precedence-relation (ordering) checker over the raw-lock event log",
